@@ -43,6 +43,7 @@ Mutants (checks/mutants/C07/*.diff, run like C06's; exit 1 with seed 1 unless no
   lexer-error-not-sticky           zlexer.Next goes on after l.err           prefixes: zone/hostile:hang:prefix:APL (= seeded C07-4: with "(" open at end of input the lexer returns
                                                                              its error token for ever and the APL / SVCB rdata loops never end) -- I had first judged this
                                                                              mutant unobservable; the hang watchdog ends the harness process after reporting
+  seeded C07-14 (buffer growth check split by comment state: com[512] written)   families buffer-boundary: zone/hostile:panic
   seeded C07-7 (I/O error of an included file's reader dropped by subNext)  families io-error: zone/hostile:io-error-lost:include, :nested, :include-big, :directory
   seeded C07-2 (LOC altitude indexes an empty token at end of input)         prefixes: zone/hostile:panic:prefix:LOC
   seeded C07-5 (endingToTxtSlice ignores l.err)                              insertions: zone/hostile:ill-formed-accepted:close:TXT etc.
